@@ -1,5 +1,6 @@
 #include "context.h"
 #include "item.h"
+#include <stdexcept>
 
 namespace ratio
 {
@@ -13,10 +14,26 @@ namespace ratio
     }
 
     context::operator expr() const { return expr(static_cast<item *>(ptr)); }
-    CORE_EXPORT context::operator bool_expr() const { return bool_expr(static_cast<bool_item *>(ptr)); }
-    CORE_EXPORT context::operator arith_expr() const { return arith_expr(static_cast<arith_item *>(ptr)); }
-    CORE_EXPORT context::operator string_expr() const { return string_expr(static_cast<string_item *>(ptr)); }
-    CORE_EXPORT context::operator var_expr() const { return var_expr(static_cast<var_item *>(ptr)); }
+    // an expression of another kind (e.g. 'x < 5 | y', which the grammar reads as a disjunction with a number) is a reported error..
+    CORE_EXPORT context::operator bool_expr() const
+    {
+        if (bool_item *itm = dynamic_cast<bool_item *>(ptr))
+            return bool_expr(itm);
+        throw std::invalid_argument("type mismatch: a boolean expression is expected..");
+    }
+    CORE_EXPORT context::operator arith_expr() const
+    {
+        if (arith_item *itm = dynamic_cast<arith_item *>(ptr))
+            return arith_expr(itm);
+        throw std::invalid_argument("type mismatch: an arithmetic expression is expected..");
+    }
+    CORE_EXPORT context::operator string_expr() const
+    {
+        if (string_item *itm = dynamic_cast<string_item *>(ptr))
+            return string_expr(itm);
+        throw std::invalid_argument("type mismatch: a string expression is expected..");
+    }
+    CORE_EXPORT context::operator var_expr() const { return var_expr(static_cast<var_item *>(ptr)); } // (plain objects are handled as object variables as well)
 
     expr::expr(item *const ptr) : context(ptr) {}
     CORE_EXPORT item &expr::operator*() const { return *static_cast<item *>(ptr); }
